@@ -2,6 +2,7 @@ package vs
 
 import (
 	"reflect"
+	"time"
 )
 
 // Case is one communication clause of a rewritten select statement.
@@ -9,6 +10,43 @@ type Case interface {
 	rcase() reflect.SelectCase
 	try() bool
 	set(v reflect.Value, ok bool)
+	// status: 1 known ready, 0 known not ready, 2 unknown
+	status(x *Exec) int
+}
+
+func chanStatus(x *Exec, ch reflect.Value, recv bool) int {
+	if ch.IsNil() {
+		return 0
+	}
+	key := ch.Interface()
+	if recv {
+		if x.isClosed(key) {
+			return 1
+		}
+		if dl, ok := x.timerDeadline(ch.Pointer()); ok {
+			if time.Now().Before(dl) {
+				return 0
+			}
+			return 1
+		}
+		if ch.Cap() > 0 {
+			if ch.Len() > 0 {
+				return 1
+			}
+			return 2 // could also be closed by uninstrumented code
+		}
+		return 2
+	}
+	if x.isClosed(key) {
+		return 1 // send on closed channel panics: certainly "ready"
+	}
+	if ch.Cap() > 0 {
+		if ch.Len() < ch.Cap() {
+			return 1
+		}
+		return 0
+	}
+	return 2
 }
 
 // RecvCase is `case v, ok = <-ch`.
@@ -24,6 +62,7 @@ func R[T any](ch <-chan T) *RecvCase[T] { return &RecvCase[T]{ch: ch} }
 func (c *RecvCase[T]) rcase() reflect.SelectCase {
 	return reflect.SelectCase{Dir: reflect.SelectRecv, Chan: reflect.ValueOf(c.ch)}
 }
+func (c *RecvCase[T]) status(x *Exec) int { return chanStatus(x, reflect.ValueOf(c.ch), true) }
 func (c *RecvCase[T]) try() bool {
 	if c.ch == nil {
 		return false
@@ -69,6 +108,7 @@ func (b SendBuilder[T]) With(v T) *SendCase[T] { return &SendCase[T]{b.ch, v} }
 func (c *SendCase[T]) rcase() reflect.SelectCase {
 	return reflect.SelectCase{Dir: reflect.SelectSend, Chan: reflect.ValueOf(c.ch), Send: reflect.ValueOf(&c.v).Elem()}
 }
+func (c *SendCase[T]) status(x *Exec) int { return chanStatus(x, reflect.ValueOf(c.ch), false) }
 func (c *SendCase[T]) try() bool {
 	if c.ch == nil {
 		return false
@@ -89,7 +129,7 @@ func Select(site string, hasDefault bool, cases ...Case) int {
 	prio := 0
 	var p *parked
 	if x != nil && !x.free.Load() {
-		p = &parked{site: site, kind: KSelect, ncase: len(cases), hasDef: hasDefault}
+		p = &parked{site: site, kind: KSelect, ncase: len(cases), hasDef: hasDefault, cases: cases}
 		prio = x.park(p)
 	}
 	if prio > 0 && prio < len(cases) {
@@ -133,6 +173,9 @@ func Close(site string, ch any) {
 	x := cur.Load()
 	if x != nil {
 		x.park(&parked{site: site, kind: KPoint})
+		if !x.free.Load() {
+			x.markClosed(ch)
+		}
 	}
 	defer func() {
 		if r := recover(); r != nil {
